@@ -40,7 +40,7 @@ ASSUMPTIONS = [
     "struct.pack raises for out-of-range lengths; len(), tell() and the UKVRecord constructor do not fail",
     "the OS does not alter bytes below the offset a process writes at",
 ]
-FLOORS = {"C02.R7": 1, "C02.R1": 2, "C02.R2": 1, "C02.R3": 5, "C02.R4": 6, "C02.R5": 1, "C02.R6": 4}
+FLOORS = {"C02.R9": 1, "C02.R7": 1, "C02.R1": 2, "C02.R2": 1, "C02.R3": 5, "C02.R4": 6, "C02.R5": 1, "C02.R6": 4}
 
 STATE = {"self._toc[]", "self._eof", "self._last"}
 STREAM_WRITES = {"self._stream.write", "self._stream.truncate", "self._pack_write", "self._stream.writelines"}
@@ -66,6 +66,13 @@ def run(chk):
     chk.call(r5_shortcut, chk, mapb)
     chk.call(r6_append_only, chk, put, wh, mapb)
     chk.call(r7_flush_progress, chk)
+    chk.call(r8_reopen_does_not_recreate, chk)
+    chk.call(r9_short_header_is_no_header, chk)
+    # "inside a writing session every key the collection lists is readable": the session (re)opens the file in the mode it needs and
+    # re-maps the blocks (the clause C04.R3 decides, under this property's name)
+    from . import c04
+
+    chk.borrow("C02.R8", c04.r3_index_refresh, chk)
 
 
 # ----------------------------------------------------------------------------
@@ -630,6 +637,62 @@ def r6_append_only(chk, put, wh, mapb):
     kname_ = key_bytes_name(put)[0]
     chk.decide(all(norm(sub.slice) == kname_ for sub in subs), "C02.R6", f"{put.key}:index-store-key", put.where(st[0]), "indexes under the put key",
                f"put stores the record under {[norm(sub.slice) for sub in subs]}, not under the key")
+
+
+def r8_reopen_does_not_recreate(chk):
+    """A handle that created its file (`x` / `w`) must not create it again when the same object is reopened (`with f:`, `f.open()`):
+    close() turns every creating mode into `a`.  The creating modes are read from open() (the modes whose arm writes the header)."""
+    import copy as _copy
+
+    from ..canon import specialize
+
+    prog = chk.prog
+    opn, cls_ = prog.func(f"{UKV}:UKVFile.open"), prog.func(f"{UKV}:UKVFile.close")
+    chk.analysed(opn, cls_)
+
+    class _ModeIsParam(ast.NodeTransformer):
+        def visit_Attribute(self, n):
+            if isinstance(n.ctx, ast.Load) and norm(n) == "self.mode":
+                return ast.copy_location(ast.Name("mode", ast.Load()), n)
+            return self.generic_visit(n)
+
+    body_o = [_ModeIsParam().visit(_copy.deepcopy(s_)) for s_ in opn.node.body]
+    creating = [m for m in ("r", "a", "x", "w") if any(has_call(s_, {"self.write_header"}) for s_ in specialize(body_o, "mode", m, {}))]
+    chk.require(creating, "UKVFile.open: no mode writes the header")
+    body_c = [_ModeIsParam().visit(_copy.deepcopy(s_)) for s_ in cls_.node.body]
+    left = []
+    for m in creating:
+        spec = specialize(body_c, "mode", m, {})
+        downgraded = any(isinstance(x, ast.Assign) and norm(x.targets[0]) == "self.mode" and isinstance(x.value, ast.Constant) and x.value.value in ("a", "r") for s_ in spec for x in ast.walk(s_))
+        if not downgraded:
+            left.append(m)
+    chk.decide(not left, "C02.R8", f"{cls_.key}:creating-modes-become-append", cls_.where(), f"close() turns {creating} into 'a'",
+               f"close() leaves the mode {left} in place: reopening the same object opens the path in a creating mode again - the file is truncated (or the open fails) while the "
+               "handle's cached index still lists the old keys")
+
+
+def r9_short_header_is_no_header(chk):
+    """`_unpack_read` answers `default` when fewer bytes than the struct needs could be read (the end of the file, or a header torn by a
+    crash): the unpack error of a short read is caught (`struct.error`, or broader), or the length is tested first."""
+    prog = chk.prog
+    f = prog.func(f"{UKV}:UKVFile._unpack_read")
+    chk.analysed(f)
+    unp = [c for c in walk_no_nested(f.node) if isinstance(c, ast.Call) and isinstance(c.func, ast.Attribute) and c.func.attr == "unpack"]
+    chk.require(unp, "_unpack_read: no unpack call")
+    ok = False
+    for t in walk_no_nested(f.node):
+        if isinstance(t, ast.Try) and any(x is unp[0] for b in t.body for x in ast.walk(b)):
+            for h in t.handlers:
+                names = [] if h.type is None else [norm(x) for x in (h.type.elts if isinstance(h.type, ast.Tuple) else [h.type])]
+                if h.type is None or any(n_ in ("Exception", "BaseException", "struct.error", "error", "StructError") for n_ in names):
+                    ok = True
+    # or: a length test that returns the default before unpacking
+    for g in walk_no_nested(f.node):
+        if isinstance(g, ast.If) and any(isinstance(c, ast.Call) and call_name(c) == "len" for c in ast.walk(g.test)) and ".size" in norm(g.test) and any(isinstance(x, ast.Return) for x in g.body):
+            ok = True
+    chk.decide(ok, "C02.R9", f"{f.key}:short-read-gives-default", f.where(unp[0]), "a short read (struct.error) gives the default",
+               "_unpack_read lets the unpack error of a short read escape (only an empty read / OSError gives the default): a file that ends 1-4 bytes into a block header - "
+               "a crash while the header was being written - cannot be opened at all (struct.error) instead of showing the records before it")
 
 
 def r7_flush_progress(chk):
